@@ -294,11 +294,9 @@ def parseByteTok (bs : Str) : Option (Option Nat) :=
 def spmCfg (V : Vocab) : Cfg where
   make l r := (V.tokId (l ++ r)).map fun id => (V.score id, (utf8s l).length + (utf8s r).length, [])
   less x y := x.key > y.key || (x.key == y.key && x.a < y.a)
-  /- Go tests only the byte size (staleness); a non-stale candidate was created from exactly these
-     `l`, `r`, for which `tokId (l ++ r)` was found.  The model re-tests that lookup (always true in
-     the Go code by the staleness argument; validated by L1, not proved here) so that "every merged
-     part is a token" is a checked fact of the model. -/
-  ok c l r := ((utf8s l).length + (utf8s r).length == c.size) && (V.tokId (l ++ r)).isSome
+  /- exactly the Go test: only the byte size (staleness).  That a candidate passing it was created
+     from exactly these `l`, `r` (so `l ++ r` is a token) is PROVED: Proofs/Tokenizer.lean `join_inv`. -/
+  ok c l r := (utf8s l).length + (utf8s r).length == c.size
 
 def spmToken (V : Vocab) (tok : Str) : List Nat :=
   match V.tokId tok with
